@@ -265,7 +265,7 @@ func (r *arRun) arReceiveAll() bool {
 			if p != "" {
 				r.c.Hit("recv-panic")
 				r.wedged[ca] = true
-				r.fail("C09: GenerateAutoReceive panicked on the producer path (no recover there) for %s: %s", desc, firstLine(p))
+				r.fail("C09: GenerateAutoReceive panicked on the producer path (no recover there) for %s: %s", desc, firstLine300(p))
 				continue
 			}
 			if err != nil {
@@ -286,7 +286,7 @@ func (r *arRun) arReceiveAll() bool {
 				defer ins.Unlock()
 				ierr = ch.AddAccountBlockTransaction(ins, res.Transaction)
 			}); p != "" {
-				ierr = fmt.Errorf("panic: %s", firstLine(p))
+				ierr = fmt.Errorf("panic: %s", firstLine300(p))
 			}
 			if ierr != nil {
 				r.wedged[ca] = true
@@ -329,7 +329,7 @@ func (r *arRun) arUpdateContracts() {
 		if p := safely(func() {
 			cerr = implementation.CanPerformUpdate(vm_context.NewAccountContext(momentumStore, ch.GetFrontierAccountStore(address), nil))
 		}); p != "" {
-			r.fail("C09: canPerformEmbeddedUpdate(%s) panicked: %s", arContractName(address), firstLine(p))
+			r.fail("C09: canPerformEmbeddedUpdate(%s) panicked: %s", arContractName(address), firstLine300(p))
 			continue
 		}
 		if cerr == nil {
@@ -345,15 +345,6 @@ func (r *arRun) arUpdateContracts() {
 	}
 }
 
-func firstLine(s string) string {
-	if i := strings.IndexByte(s, '\n'); i >= 0 {
-		s = s[:i]
-	}
-	if len(s) > 300 {
-		s = s[:300]
-	}
-	return s
-}
 
 func (r *arRun) describeSend(b *nom.AccountBlock) string {
 	gen, via := "?", "contract"
@@ -545,7 +536,7 @@ func (r *arRun) buildExternal(call *arCall) (*nom.AccountBlock, error) {
 		}
 		b.Signature, b.PublicKey = sig, pub
 	}); p != "" {
-		return nil, fmt.Errorf("panic: %s", firstLine(p))
+		return nil, fmt.Errorf("panic: %s", firstLine300(p))
 	}
 	return b, err
 }
@@ -605,7 +596,7 @@ func (r *arRun) deliver(call *arCall, via string) *nom.AccountBlock {
 	if err != nil {
 		c.Hit(label + " rejected-at-send")
 		if c.Args["debug"] != "" && (call.gen == "canonical" || call.gen == "setup") {
-			c.Hit(fmt.Sprintf("dbg %s gen=%s via=%s rejected: %v", label, call.gen, via, firstLine(err.Error())))
+			c.Hit(fmt.Sprintf("dbg %s gen=%s via=%s rejected: %v", label, call.gen, via, firstLine300(err.Error())))
 		}
 		return nil
 	}
@@ -766,4 +757,14 @@ func autoreceiveHistory(c *Ctx, id int, scenario string) {
 		r.checkAllAnswered("at the end of the history")
 	}
 	c.Hit("history-complete")
+}
+
+func firstLine300(s string) string {
+	if i := strings.IndexByte(s, '\n'); i >= 0 {
+		s = s[:i]
+	}
+	if len(s) > 300 {
+		s = s[:300]
+	}
+	return s
 }
